@@ -60,6 +60,19 @@ def check_bez(case):
             dis.append({"clause": "Tightness", "detail": "%s of %r: max %r on axis %d is above every point of the curve (<= %r)" % (name, seg, mx, axis, hi2 / D), "form": name})
         if not (bb[0] <= bb[2] and bb[1] <= bb[3]):
             dis.append({"clause": "Order", "detail": "%s of %r: %r" % (name, seg, bb)})
+    # a zero-length closed sub-path (M x,y Z; a polygon of one point) has a position: its box is that point
+    p0 = pts[0]
+    for name, fn in (("Path(M, Z).bbox()", lambda: svg.Path(svg.Move(None, svg.Point(p0)), svg.Close(svg.Point(p0), svg.Point(p0))).bbox()),
+                     ("Polygon(one point).bbox()", lambda: svg.Polygon((p0.x, p0.y)).bbox())):
+        try:
+            bb = fn()
+        except engine.CaseTimeout:
+            raise
+        except Exception as e:
+            dis.append({"clause": "Raises", "detail": "%s raised %s" % (name, type(e).__name__)})
+            continue
+        if bb is None or any(abs(bb[i] - (p0.x, p0.y)[i % 2]) > 1e-9 * U for i in range(4)):
+            dis.append({"clause": "PointBox", "detail": "%s at %r = %r" % (name, p0, bb), "form": name})
     return dis
 
 
